@@ -34,8 +34,17 @@ Canon(c) == \A i \in 1..(NSlots - 1) : Code(c.elems[i]) <= Code(c.elems[i + 1])
 \* out-of-service unbalanced element must not unbalance the network; scaling must reach every phase)
 ModOK(c) == /\ Cardinality({i \in 1..NSlots : c.elems[i].mod # "none"}) <= 1
             /\ \A i \in 1..NSlots : c.elems[i].mod # "none" => (c.elems[i].kind \in SymKinds \/ c.elems[i].pat = "unb")
-\* every vector group on the radial feeder; the other topologies are combined with Dyn only
-NetOK(c) == c.topo # "radial" => c.vg = "Dyn"
+\* Reduction by relevance (keeps the space replayable): the reference network is Dyn on the radial feeder with EVERY
+\* element configuration; the other vector groups / topologies differ from it only through the transformer or the
+\* buses behind line 2, so they are combined with the configurations that load the LV bus; the topologies that take
+\* buses out of supply with unmodified elements; the vector groups outside the documented set (only the accept /
+\* reject decision is bound) with a single element.
+OnLv(c) == \E i \in 1..NSlots : c.elems[i].kind # "none" /\ c.elems[i].bus = TrafoLv
+Plain(c) == \A i \in 1..NSlots : c.elems[i].mod = "none"
+NetOK(c) == /\ (c.topo # "radial" => c.vg = "Dyn")
+            /\ (c.vg # "Dyn" \/ c.topo # "radial" => OnLv(c))
+            /\ (c.topo \in {"cut", "toff", "notrafo"} => Plain(c))
+            /\ (VgClass(c.vg) # "modelled" => \A i \in 2..NSlots : c.elems[i] = NoElem)
 Configs == {c \in [vg : VGs, topo : Topos, elems : [1..NSlots -> ElemOpts]] : NetOK(c) /\ Canon(c) /\ ModOK(c)}
 
 Row(e) == [pt |-> TabTotal(e, "p"), qt |-> TabTotal(e, "q"), p |-> TabPhase(e, "p"), q |-> TabPhase(e, "q"),
